@@ -48,6 +48,11 @@ fn main() {
                 let mut st: Option<conform::Impl> = None;
                 isolate::worker_main(move |case| props::c17::worker_case(&mut st, case));
             }
+            "c06" => {
+                let mut st = props::c06::WState::new();
+                isolate::worker_main(move |case| props::c06::worker_case(&mut st, case));
+            }
+            "c06-cyclic" => isolate::worker_main(props::c06::cyclic_worker),
             _ => {
                 eprintln!("unknown worker mode {}", mode);
                 std::process::exit(2);
@@ -101,6 +106,7 @@ fn main() {
         "C03" => props::c03::run(&mk("C03")),
         "C04" => props::c04::run(&mk("C04")),
         "C05" => props::c05::run(&mk("C05")),
+        "C06" => props::c06::run(&mk("C06")),
         "C07" => props::c07::run(&mk("C07")),
         "C08" => props::c08::run(&mk("C08")),
         "C09" => props::c09::run(&mk("C09")),
